@@ -287,7 +287,23 @@ impl Gen<'_> {
                 let base = *self.rng.pick(&[-8_334_601_228_800i64, 8_210_266_876_799, -8_334_601_228_800_000, 8_210_266_876_799_999, i64::MIN, i64::MAX]);
                 base.saturating_add(self.rng.range(-2, 2))
             }
-            3 => self.rng.log_i64(63),
+            3 => {
+                if self.rng.chance(1, 2) {
+                    self.rng.log_i64(63)
+                } else {
+                    // a count of seconds / minutes / ... / microseconds whose whole-day (or whole-unit)
+                    // part sits at a 32-bit narrowing boundary, up to the epoch shift away from it
+                    self.extreme = true;
+                    let edge = *self.rng.pick(&[i32::MAX as i64, i32::MIN as i64, u32::MAX as i64 + 1, -(u32::MAX as i64) - 1, 1i64 << 33]);
+                    let near = match self.rng.below(3) {
+                        0 => self.rng.range(-3, 3),
+                        1 => self.rng.range(-720_000, 720_000),
+                        _ => self.rng.range(-800_000_000, 800_000_000),
+                    };
+                    let unit = *self.rng.pick(&[1i64, 60, 3600, 86_400, 604_800, 86_400_000, 86_400_000_000]);
+                    (edge + near).checked_mul(unit).map(|x| x.saturating_add(self.rng.range(0, unit - 1))).unwrap_or(i64::MAX)
+                }
+            }
             _ => self.rng.next() as i64,
         };
         self.rec("i64", v)
@@ -367,13 +383,21 @@ impl Gen<'_> {
         self.ndt().and_utc()
     }
     fn delta(&mut self) -> TimeDelta {
-        let v = match self.rng.below(8) {
+        let v = match self.rng.below(9) {
             0 => TimeDelta::MIN,
             1 => TimeDelta::MAX,
             2 => TimeDelta::zero(),
             3 => TimeDelta::nanoseconds(*self.rng.pick(&[1i64, -1, 999_999_999, -999_999_999, i64::MAX, i64::MIN])),
             4 => TimeDelta::new(*self.rng.pick(&[86_400i64, -86_400, 86_399, 1, -1]), self.rng.below(1_000_000_000) as u32).unwrap(),
             5 => crate::refinst::td_from_ns(self.rng.range128(crate::refinst::TD_MIN_NS, crate::refinst::TD_MAX_NS)).unwrap(),
+            6 => {
+                // whole-day count at a 32-bit narrowing boundary (or a multiple of 2^32 plus a little)
+                self.extreme = true;
+                let edge = *self.rng.pick(&[i32::MAX as i64, i32::MIN as i64, u32::MAX as i64 + 1, -(u32::MAX as i64) - 1, 1i64 << 33, -(1i64 << 33)]);
+                let days = edge + if self.rng.chance(1, 2) { self.rng.range(-2, 2) } else { self.rng.range(-800_000, 800_000) };
+                let secs = days * 86_400 + if self.rng.chance(1, 2) { 0 } else { self.rng.range(-86_399, 86_399) };
+                TimeDelta::try_seconds(secs).unwrap_or(TimeDelta::MAX)
+            }
             _ => TimeDelta::nanoseconds(self.rng.log_i64(63)),
         };
         self.rec("delta", v)
